@@ -160,8 +160,14 @@ SndKinds == <<
   "P22-similar-user-type",          \* a blob literal / enum value / tuple replaced by one of a DIFFERENT but SIMILAR type
   "P23-operand-via-unannotated-parameter", \* an ill-typed operand reaches an operator / field access / index through an un-annotated
                                     \* parameter (or directly), coming from a literal, variable, alias chain, field, call result, tuple element
-  "P24-name-outside-its-region"     \* self in a non-method field of a blob literal, a case binding in a sibling arm, a loop-body local in
+  "P24-name-outside-its-region",    \* self in a non-method field of a blob literal, a case binding in a sibling arm, a loop-body local in
                                     \* the loop condition, a parameter / inner local used outside its function
+  "P25-global-initialiser-cycle",   \* a global's initialiser depends on the global itself / on a later global THROUGH A CALL (function,
+                                    \* closure, blob method, iife), reading or assigning it; in both textual orders
+  "P26-both-operands-unsupported",  \* two-point: BOTH operands of a binary operator get values of one and the same type the operator does
+                                    \* not support - scalar, element-wise inside tuples and nested tuples, literals and variables
+  "P27-compound-assignment-both-sides-unsupported" \* two-point: target and value of += -= *= /= have one and the same unsupported type; target
+                                    \* local / captured / global / field / field of a blob parameter; as last use and followed by a use
 >>
 
 SndOtherLits(k) ==
@@ -277,8 +283,13 @@ SndSimilarDecls == <<
   EnumD("E1", <<VD1("X", TInt)>>),                              \* E is X int, Y
   EnumD("EZ", <<VD1("X", TInt), VD0("Y"), VD0("Z")>>),
   EnumD("ES", <<VD1("X", TStr), VD0("Y")>>),
-  BlobD("WS", <<FD("w", TStr)>>), BlobD("WB", <<FD("w", TBool)>>), BlobD("WI", <<FD("w", TInt)>>)
+  BlobD("WS", <<FD("w", TStr)>>), BlobD("WB", <<FD("w", TBool)>>), BlobD("WI", <<FD("w", TInt)>>),
+  BlobD("CY", <<FD("m", TFn(<<>>, TInt))>>),
+  \* two mutable globals of non-numeric type (targets of P27)
+  DefN(1040, "mut", TNone, St("a"), "tps"), DefN(1041, "mut", TNone, Bo(TRUE), "tpb")
 >>
+GTps == 1040
+GTpb == 1041
 
 SndP3Lit(name, fs, a) == BlobL(name, [i \in 1..Len(fs) |-> FI(fs[i], I(a + i))])
 SndGetFn == Fn(<<>>, TInt, <<Ex(I(1))>>)
@@ -484,15 +495,127 @@ SndCaseBindersKids(ks, j) == IF j > Len(ks) THEN <<>> ELSE SndCaseBinders(ks[j])
 
 SndIsPush(s) == s.k = "expr" /\ s.e.k = "call" /\ s.e.f.k = "std" /\ s.e.f.name = "list.push" /\ Len(s.e.args) = 2
 
-\* alternatives for a statement sequence; root = the sequence of top-level nodes
-SndSeqAlts(n, root) ==
-  IF root
+
+SndInsertSeq(s, i, xs) == SubSeq(s, 1, i - 1) \o xs \o SubSeq(s, i, Len(s))      \* xs become the elements i, i+1, ..
+
+(* P25 at the sequence of top-level nodes *)
+GCycF == 1030
+GCycH == 1031
+GCycO == 1032
+SndCycleAlts(n) ==
+  LET K == "P25-global-initialiser-cycle"
+      vals == SndSelectIdx(n.ss, LAMBDA t : t.k = "def" /\ t.e.k # "fn") IN
+  SndFlat([q \in 1..Len(vals) |->
+     LET i == vals[q]
+         d == n.ss[i]
+         G == d.b
+         isInt == d.ty.k = "tint"
+         RT == IF isInt THEN TInt ELSE TNone
+         Rd(b) == IF isInt THEN Bin("+", V(b), I(1)) ELSE V(b)                       \* an expression of G's type that reads b
+         Init(call) == IF isInt THEN call ELSE Idx(Tup(<<d.e, call>>), 0)            \* keeps G's type, runs the call
+         FnDef(body) == DefN(GCycF, "const", TNone, Fn(<<>>, RT, body), "cycf")
+         CallF == Call(V(GCycF), <<>>)
+         forms ==
+           <<[v |-> "self-through-function", d |-> [d EXCEPT !.e = Init(CallF)], h |-> <<FnDef(<<Ex(Rd(G))>>)>>],
+             [v |-> "self-through-closure-in-function", d |-> [d EXCEPT !.e = Init(CallF)],
+              h |-> <<FnDef(<<Ex(Call(Fn(<<>>, RT, <<Ex(Rd(G))>>), <<>>))>>)>>],
+             [v |-> "later-global-through-function", d |-> [d EXCEPT !.e = Init(CallF)],
+              h |-> <<FnDef(<<Ex(Rd(GCycH))>>), DefN(GCycH, "const", d.ty, V(G), "cych")>>]>>
+           \o (IF isInt
+               THEN <<[v |-> "self-through-blob-method", d |-> [d EXCEPT !.e = Call(Fld(V(GCycO), "m"), <<>>)],
+                       h |-> <<DefN(GCycO, "const", TNone, BlobL("CY", <<FI("m", Fn(<<>>, TInt, <<Ex(Rd(G))>>))>>), "cyco")>>]>>
+               ELSE <<>>)
+           \o (IF isInt /\ d.kind = "mut"
+               THEN <<[v |-> "self-assigned-through-function", d |-> [d EXCEPT !.e = CallF],
+                       h |-> <<FnDef(<<Asg("+=", V(G), I(1)), Ex(I(1))>>)>>]>>
+               ELSE <<>>) IN
+     SndFlat([j \in 1..Len(forms) |->
+        <<SndA(K, forms[j].v \o ":value-first", SndSeqN(SubSeq(n.ss, 1, i - 1) \o <<forms[j].d>> \o forms[j].h \o SubSeq(n.ss, i + 1, Len(n.ss)))),
+          SndA(K, forms[j].v \o ":function-first", SndSeqN(SubSeq(n.ss, 1, i - 1) \o forms[j].h \o <<forms[j].d>> \o SubSeq(n.ss, i + 1, Len(n.ss))))>>])
+     \o <<SndA(K, "self-through-iife", SndSeqN([n.ss EXCEPT ![i].e = Init(Call(Fn(<<>>, RT, <<Ex(Rd(G))>>), <<>>))]))>>])
+
+(* P26 / P27: code inserted at the start of a function body or loop body.  In the base D:twopoint every combination is
+   emitted at every such place (dense); elsewhere the combinations are thinned to every SndThin-th one, the offset taken
+   from the path of the site, so that the combinations rotate over the contexts of the universe. *)
+SndThin == 20
+SndStrPair == [t |-> "str", a |-> St("a"), b |-> St("b")]
+SndBoolPair == [t |-> "bool", a |-> Bo(TRUE), b |-> Bo(FALSE)]
+SndIntPair == [t |-> "int", a |-> I(1), b |-> I(2)]
+SndOpPairs ==        \* <<[op, w]>>: operator and a pair of values of one type that the operator does not support
+  <<[op |-> "+", w |-> SndBoolPair], [op |-> "-", w |-> SndStrPair], [op |-> "-", w |-> SndBoolPair],
+    [op |-> "*", w |-> SndStrPair], [op |-> "*", w |-> SndBoolPair], [op |-> "/", w |-> SndStrPair], [op |-> "/", w |-> SndBoolPair],
+    [op |-> "<", w |-> SndBoolPair], [op |-> "<=", w |-> SndBoolPair], [op |-> ">", w |-> SndBoolPair], [op |-> ">=", w |-> SndBoolPair],
+    [op |-> "and", w |-> SndIntPair], [op |-> "or", w |-> SndIntPair]>>
+SndTwoPointExprs ==  \* <<[v, ss]>>: variant name and the statements to insert
+  SndFlat([j \in 1..Len(SndOpPairs) |->
+     LET c == SndOpPairs[j]
+         nm == c.op \o ":" \o c.w.t
+         T1(x, k) == Tup(<<x, I(k)>>)
+         T2(x, k) == Tup(<<Tup(<<x, I(k)>>), I(k + 2)>>) IN
+     <<[v |-> nm \o ":scalar", ss |-> <<Print(Bin(c.op, c.w.a, c.w.b))>>],
+       [v |-> nm \o ":scalar:via-variables",
+        ss |-> <<DefM(FB6, TNone, c.w.a), DefM(FB7, TNone, c.w.b), Print(Bin(c.op, V(FB6), V(FB7)))>>]>>
+     \o (IF c.op \in {"and", "or"} THEN <<>>
+         ELSE <<[v |-> nm \o ":in-tuple", ss |-> <<Print(Bin(c.op, T1(c.w.a, 1), T1(c.w.b, 2)))>>],
+                [v |-> nm \o ":in-tuple:via-variables",
+                 ss |-> <<DefM(FB6, TNone, T1(c.w.a, 1)), DefM(FB7, TNone, T1(c.w.b, 2)), Print(Bin(c.op, V(FB6), V(FB7)))>>],
+                [v |-> nm \o ":in-nested-tuple", ss |-> <<Print(Bin(c.op, T2(c.w.a, 1), T2(c.w.b, 2)))>>]>>)])
+
+SndAsgPairs ==
+  <<[op |-> "+=", w |-> SndBoolPair], [op |-> "-=", w |-> SndStrPair], [op |-> "-=", w |-> SndBoolPair],
+    [op |-> "*=", w |-> SndStrPair], [op |-> "*=", w |-> SndBoolPair], [op |-> "/=", w |-> SndStrPair]>>
+SndTwoPointAsgs ==
+  SndFlat([j \in 1..Len(SndAsgPairs) |->
+     LET c == SndAsgPairs[j]
+         nm == c.op \o ":" \o c.w.t
+         box == SndBoxOf(c.w.a)
+         glob == IF c.w.t = "str" THEN GTps ELSE GTpb
+         targets ==      \* [v, ss: the statements, rd: an expression that reads the target afterwards]
+           <<[v |-> "local", ss |-> <<DefM(FB6, TNone, c.w.a), Asg(c.op, V(FB6), c.w.b)>>, rd |-> V(FB6)],
+             [v |-> "captured", ss |-> <<DefM(FB6, TNone, c.w.a), DefC(FB7, TNone, Fn(<<>>, TVoid, <<Asg(c.op, V(FB6), c.w.b)>>)),
+                                        Ex(Call(V(FB7), <<>>))>>, rd |-> V(FB6)],
+             [v |-> "global", ss |-> <<Asg(c.op, V(glob), c.w.b)>>, rd |-> V(glob)],
+             [v |-> "field", ss |-> <<DefC(FB6, TNone, BlobL(box, <<FI("w", c.w.a)>>)), Asg(c.op, Fld(V(FB6), "w"), c.w.b)>>,
+              rd |-> Fld(V(FB6), "w")],
+             [v |-> "field-of-blob-parameter",
+              ss |-> <<DefC(FB6, TNone, BlobL(box, <<FI("w", c.w.a)>>)),
+                       DefC(FB7, TNone, Fn(<<P(FB8, TName(box))>>, TVoid, <<Asg(c.op, Fld(V(FB8), "w"), c.w.b)>>)),
+                       Ex(Call(V(FB7), <<V(FB6)>>))>>, rd |-> Fld(V(FB6), "w")]>> IN
+     SndFlat([t \in 1..Len(targets) |->
+        <<[v |-> nm \o ":" \o targets[t].v \o ":last-use", ss |-> targets[t].ss],
+          [v |-> nm \o ":" \o targets[t].v \o ":then-used", ss |-> targets[t].ss \o <<Print(targets[t].rd)>>]>>])])
+  \o SndFlat([t \in 1..2 |->      \* element-wise inside tuples: local and captured targets
+        LET a == Tup(<<St("a"), I(1)>>)
+            b == Tup(<<St("b"), I(2)>>)
+            ss == IF t = 1 THEN <<DefM(FB6, TNone, a), Asg("-=", V(FB6), b)>>
+                  ELSE <<DefM(FB6, TNone, a), DefC(FB7, TNone, Fn(<<>>, TVoid, <<Asg("-=", V(FB6), b)>>)), Ex(Call(V(FB7), <<>>))>>
+            nm == "-=:str-in-tuple:" \o (IF t = 1 THEN "local" ELSE "captured") IN
+        <<[v |-> nm \o ":last-use", ss |-> ss], [v |-> nm \o ":then-used", ss |-> ss \o <<Print(Idx(V(FB6), 1))>>]>>])
+
+RECURSIVE SndPathSum(_, _)
+SndPathSum(ctx, i) == IF i > Len(ctx) THEN 0 ELSE ctx[i][2] + 1 + SndPathSum(ctx, i + 1)
+
+SndTwoPointAlts(n, ctx, dense) ==
+  LET salt == SndPathSum(ctx, 1)
+      Keep(j) == dense \/ (j + salt) % SndThin = 0
+      ex == SndTwoPointExprs
+      as == SndTwoPointAsgs IN
+  SndFlat([j \in 1..Len(ex) |->
+     IF Keep(j) THEN <<SndA("P26-both-operands-unsupported", ex[j].v, SndSeqN(SndInsertSeq(n.ss, 1, ex[j].ss)))>> ELSE <<>>])
+  \o SndFlat([j \in 1..Len(as) |->
+     IF Keep(j + 7) THEN <<SndA("P27-compound-assignment-both-sides-unsupported", as[j].v, SndSeqN(SndInsertSeq(n.ss, 1, as[j].ss)))>> ELSE <<>>])
+
+\* alternatives for a statement sequence; an empty context = the sequence of top-level nodes
+SndSeqAlts(n, ctx, dense) ==
+  IF Len(ctx) = 0
   THEN LET defs == SndSelectIdx(n.ss, LAMBDA t : t.k = "def")
            rev == [j \in 1..Len(defs) |-> n.ss[defs[Len(defs) + 1 - j]]] IN
        <<SndA("P14-global-order", "definitions-reversed",
               SndSeqN([i \in 1..Len(n.ss) |->
                          IF n.ss[i].k = "def" THEN rev[CHOOSE j \in 1..Len(defs) : defs[j] = i] ELSE n.ss[i]]))>>
-  ELSE SndFlat([i \in 1..Len(n.ss) |->
+       \o SndCycleAlts(n)
+  ELSE (IF ctx[Len(ctx)] \in {<<"fn", 1>>, <<"loop", 2>>} THEN SndTwoPointAlts(n, ctx, dense) ELSE <<>>)
+    \o SndFlat([i \in 1..Len(n.ss) |->
           (IF n.ss[i].k = "def"
            \* (a trailing expression stays the tail: the value of the block must not change with the swap)
            THEN (IF i + 1 < Len(n.ss) \/ (i + 1 = Len(n.ss) /\ n.ss[i + 1].k # "expr")
@@ -512,9 +635,10 @@ SndSeqAlts(n, root) ==
            ELSE <<>>)])
 
 \* all alternatives at a site, given the node and its context
-SndAlts(n, ctx) ==
+\* (dense: the base asks for the full two-point cross at every function / loop body)
+SndAlts(n, ctx, dense) ==
   LET up == IF Len(ctx) = 0 THEN <<"-", 0>> ELSE ctx[Len(ctx)] IN
-  IF n.k = "seq" THEN SndSeqAlts(n, Len(ctx) = 0)
+  IF n.k = "seq" THEN SndSeqAlts(n, ctx, dense)
   ELSE IF n.k \in SndStmtKinds THEN SndStmtAlts(n, Len(ctx) = 1)
   ELSE IF n.k \in {"enum", "blobdecl", "std", "self"} THEN <<>>
   ELSE IF up[1] = "asg" /\ up[2] = 1
@@ -538,7 +662,7 @@ SndApFn == DefN(GAp, "const", TNone,
 
 SndDedicatedNames == <<"prelude", "scopes", "hof", "void", "lists", "blobs", "captured", "cases", "returns",
                        "glob-read", "glob-compound", "glob-field", "glob-alias", "glob-method",
-                       "usertypes-blob", "usertypes-enum-tuple", "methods">>
+                       "usertypes-blob", "usertypes-enum-tuple", "methods", "twopoint">>
 
 SndDedicated(name) ==
   CASE name = "prelude" ->       \* uses every definition of the Prelude; the one base that is perturbed INSIDE the Prelude too
@@ -682,6 +806,17 @@ SndDedicated(name) ==
                                                    FI("get", Fn(<<>>, TInt, <<Ex(Bin("+", Fld(Self, "first"), Fld(Self, "last")))>>)),
                                                    FI("last", I(4))>>)),
                       Print(Bin("+", Bin("+", Call(Fld(V(76), "bump"), <<I(1)>>), Call(Fld(V(76), "get"), <<>>)), Fld(V(76), "first")))>>)>>
+    \* one function body of every kind (global function, iife in a global initialiser, start, closure, method) and a loop body:
+    \* the places where the full two-point cross P26 / P27 is inserted
+    [] name = "twopoint" ->
+         <<BlobD("TM", <<FD("n", TInt), FD("m", TFn(<<>>, TInt))>>),
+           DefN(GF2, "const", TNone, Fn(<<P(60, TInt)>>, TInt, <<Ex(Bin("+", V(60), I(1)))>>), "gfn"),
+           DefN(GA, "const", TInt, Call(Fn(<<>>, TInt, <<Ex(I(7))>>), <<>>), "gv"),
+           StartDef(<<DefC(61, TNone, Fn(<<>>, TInt, <<Ex(I(2))>>)),
+                      DefC(62, TNone, BlobL("TM", <<FI("n", I(1)), FI("m", Fn(<<>>, TInt, <<Ex(Fld(Self, "n"))>>))>>)),
+                      DefM(63, TInt, I(0)),
+                      Loop(Bin("<", V(63), I(1)), <<Asg("+=", V(63), I(1))>>),
+                      Print(Bin("+", Bin("+", Call(V(GF2), <<I(1)>>), V(GA)), Bin("+", Bin("+", Call(V(61), <<>>), Call(Fld(V(62), "m"), <<>>)), V(63))))>>)>>
 
 ---------------------------------------------------------------------------
 (* Bases.  A base id is [o, pos, i, h, v]: template o (or "D:<name>"), hole pos filled with template i
@@ -694,6 +829,7 @@ SndExprs(o, pos, i) == IF pos = 0 THEN Instances(o, 100, 0) ELSE Nest(o, pos, i)
 
 SndIsDedicated(bid) == SubSeq(bid.o, 1, 2) = "D:"
 SndIsWhole(bid) == bid.o = "D:prelude"
+SndIsDense(bid) == bid.o = "D:twopoint"
 
 SndBaseTail(bid) ==       \* the top-level nodes that follow the Prelude
   IF SndIsDedicated(bid) THEN SndDedicated(SubSeq(bid.o, 3, Len(bid.o)))
@@ -721,7 +857,7 @@ SndPairBids(ps) ==     \* ps: a subset of SyltGen!Pairs
 \* the perturbed program of case (bid, site s, alternative a)
 SndPerturbed(bid, s, a) ==
   LET root == SndTree(bid)
-      alt == SndAlts(SndAt(root, s), SndCtx(root, s))[a] IN
+      alt == SndAlts(SndAt(root, s), SndCtx(root, s), SndIsDense(bid))[a] IN
   [kd |-> alt.kd, v |-> alt.v, tops |-> SndProgram(bid, SndPut(root, s, alt.n))]
 
 ---------------------------------------------------------------------------
